@@ -613,13 +613,15 @@ func (c *registration) setDelegate(m metric.Meter) {
 
 func (c *registration) Unregister() error {
 	c.unregMu.Lock()
-	defer c.unregMu.Unlock()
-	if c.unreg == nil {
+	unreg := c.unreg
+	c.unreg = nil
+	c.unregMu.Unlock()
+	if unreg == nil {
 		// Unregister already called.
 		return nil
 	}
 
-	var err error
-	err, c.unreg = c.unreg(), nil
-	return err
+	// Call unreg without holding unregMu: it acquires the meter's lock, and
+	// meter.setDelegate acquires unregMu while holding that lock.
+	return unreg()
 }
